@@ -1250,6 +1250,69 @@ func c12Sweep() []Case {
 	return cases
 }
 
+// ---- sweep over the NUMBER of captured tokens (result length 2n+2), every run ----
+// n = 1..40 captured tokens; variant 0: all captured, ',' delimiters; variant 1: mixed delimiters
+// (space, ", ", multi-byte bar, "=>") with skipped %{} / %{?x} tokens interleaved (captured != total).
+// Lines: two that match, one that misses the last delimiter, one that misses the leading literal.
+func c12CountSweep() []Case {
+	var cases []Case
+	delims := []string{" ", ", ", "\xe2\x94\x82", "=>", ";", "|"}
+	for n := 1; n <= 40; n++ {
+		for variant := 0; variant < 2; variant++ {
+			prefix := ""
+			if variant == 1 {
+				prefix = "["
+			} else if n%2 == 0 {
+				prefix = ">"
+			}
+			var keys, untils []string
+			for i := 0; i < n; i++ {
+				if variant == 1 && (i%3 == 1 || (n == 16 && i == 0)) { // a skipped token before this captured one
+					keys = append(keys, []string{"", "?x"}[i%2])
+					untils = append(untils, delims[(i+1)%len(delims)])
+				}
+				keys = append(keys, fmt.Sprintf("k%d", i))
+				if variant == 0 {
+					untils = append(untils, ",")
+				} else {
+					untils = append(untils, delims[i%len(delims)])
+				}
+			}
+			untils[len(untils)-1] = ";" // the last token has a delimiter a line can miss
+			var pat strings.Builder
+			pat.WriteString(prefix)
+			for i := range keys {
+				pat.WriteString("%{" + keys[i] + "}" + untils[i])
+			}
+			build := func(val func(i int) string, dropLast, dropPrefix bool) []byte {
+				var sb strings.Builder
+				sb.WriteString("zz")
+				if !dropPrefix {
+					sb.WriteString(prefix)
+				}
+				for i := range keys {
+					sb.WriteString(val(i))
+					if !(dropLast && i == len(keys)-1) {
+						sb.WriteString(untils[i])
+					}
+				}
+				sb.WriteString("tail")
+				return []byte(sb.String())
+			}
+			v1 := func(i int) string { return fmt.Sprintf("v%d", i) }
+			v2 := func(i int) string { return strings.Repeat("w", i%4) }
+			lines := [][]byte{build(v1, false, false), build(v2, false, false), build(v1, true, false)}
+			if prefix != "" {
+				lines = append(lines, build(v1, false, true))
+			}
+			c := c12MkCase(2, pat.String(), lines)
+			c.Tags = append(c.Tags, "sweep(captured tokens 1..40)")
+			cases = append(cases, c)
+		}
+	}
+	return cases
+}
+
 func c12Mode(r *Rng) int {
 	switch x := r.Intn(10); {
 	case x < 6:
@@ -1363,6 +1426,7 @@ func c12Gen(r *Rng, n int, tier string) []Case {
 	// lib.NewRng(seed) and NewRng(seed+1) are the same SplitMix64 stream shifted by one draw; decorrelate
 	r = r.Fork()
 	cases := append(c12Fixed(), c12Sweep()...)
+	cases = append(cases, c12CountSweep()...)
 	nlong := 2
 	if tier == "thorough" {
 		nlong = 12
@@ -1425,6 +1489,7 @@ func main() {
 			"1..6 lines per pattern, each built from the pattern (fillers containing a partial/complete/next delimiter or the prefix, case-flipped literals, one delimiter or the prefix omitted, junk before/after) or arbitrary bytes / alphabet soup / empty; mode in {case-sensitive, ignore-case, both}; " +
 			"12% BYTEWISE cases: literals (leading, inner, trailing) drawn from {single ASCII byte, multi-byte rune (2/3/4 bytes), U+FFFD, a lone invalid byte ff/c3/80/fe, a truncated multi-byte prefix, mixtures of two or three of these}, 2..8 lines each built from noise over {latin-1 byte, stray continuation bytes, overlong / surrogate / out-of-range sequences, truncated prefixes, U+FFFD, valid runes, ASCII} placed before, between and after the literals, with a literal omitted or truncated in a third of the lines; mostly case-sensitive (the specification is bytewise: first occurrence of the literal's bytes); " +
 			"exhaustive sweep (every run): each ASCII byte b as a one-byte pattern x each ASCII byte c as the lines [c] and [c b], ignore-case mode (matches at c iff lower(b)=lower(c)); " +
+			"sweep over the number of captured tokens (every run): n = 1..40 captured tokens x {all captured with ',' delimiters; mixed one-/two-/three-byte delimiters with skipped %{} / %{?x} tokens interleaved}, both modes, lines that match (two value sets), miss the last delimiter, miss the leading literal; " +
 			"10% BIT-0x20 cases (ignore-case or both): literals of 1..3 bytes over {@ ` [ { \\ | ] } ^ ~ _ DEL} + letters/space/digit/punctuation, lines in which the literal's 0x20-partner (all or some bytes flipped) stands at or before the real literal, the literal in the other letter case, or omitted; " +
 			"2 (quick) / 12 (thorough) sequences of >= 3000 lines on one instance with every result re-read after the last call; " +
 			"10% SEQUENCE cases: one compiled pattern, one instance, 8..60 lines with history (fresh / exact repeat of the previous or an earlier line / proper prefix or suffix of the previous (shorter) / previous plus text or doubled (longer) / same length with one byte changed), every returned slice re-read after the last call, each result compared with the model of that line alone; " +
@@ -1441,6 +1506,6 @@ func main() {
 			}
 			return c12Case(doc.Input), nil
 		},
-		Shard: 88,
+		Shard: 96,
 	})
 }
